@@ -418,6 +418,29 @@ func (ex *Exec) step(st *State) (extra []*State) {
 		f.ip++
 	case *ssa.Next:
 		it := ex.operand(st, f, x.Iter).(*MapIter)
+		if !it.IsStr && it.Pos < len(it.Keys) && it.Pres[it.Pos].Op != OConst {
+			// entry whose presence is symbolic: fork (visit it / skip it)
+			pres := it.Pres[it.Pos]
+			rY, mY := ex.feasible(st, pres)
+			rN, mN := ex.feasible(st, ex.ctx.Not(pres))
+			skip := *it
+			skip.Pos++
+			if rY == Unsat {
+				f.set(x.Iter, &skip)
+				return nil // re-execute Next on the following entry
+			}
+			if rN != Unsat {
+				ns := st.clone()
+				ex.addPC(ns, ex.ctx.Not(pres))
+				ns.model = mN
+				nf := ns.thread().top()
+				nf.set(x.Iter, &skip)
+				extra = append(extra, ns)
+				ex.rep.Forks++
+			}
+			ex.addPC(st, pres)
+			st.model = mY
+		}
 		f.set(x, ex.iterNext(st, f, x, it))
 		f.ip++
 	case *ssa.Jump:
